@@ -263,6 +263,40 @@ def rule_count_survives_reads(ctx):
     ctx.floor("C04.h reader paths", n, 5)
 
 
+def rule_dml_not_split(ctx):
+    """C04.l: one DML statement is one engine statement whose affected-row count is the count reported: only MERGE is exploded.
+    An INSERT … VALUES with a list of unknown (arbitrarily long) length goes through the explode step as itself, on every path."""
+    from ..execmodel import ExecHooks, lit, make_session, node, table
+    from ..values import Lst
+
+    prog = ctx.prog
+    if not prog.has_fn("cursor", "FakeSnowflakeCursor._transform_explode"):
+        ctx.note("no explode step")
+        return
+    n = 0
+    stmts = []
+
+    def run(I):
+        duck, conn, cur = make_session()
+        rows = Lst([node("Tuple", "row", expressions=Lst([lit("1", False)]))], open=True)  # any number of rows
+        st = node("Insert", "stmt", this=table("T"), expression=node("Values", "values", expressions=rows))
+        stmts.append(st)
+        return I.force(I.call(I.getattr(cur, "_transform_explode"), [st], {}, None))
+
+    for p, st in zip(explore(prog, lambda: ExecHooks(None), run, max_paths=32), stmts):
+        if p.outcome != "return":
+            continue
+        n += 1
+        v = p.value
+        ok = isinstance(v, Lst) and not v.open and len(v.items) == 1 and (v.items[0] is st or getattr(v.items[0], "copy_of", None) is st)
+        ctx.ob("C04.l", "INSERT … VALUES of any length stays one statement", ok, "fakesnow/cursor.py", tagof(v)[:80])
+        if not ok:
+            ctx.violation("C04.l", "cursor", "FakeSnowflakeCursor._transform_explode", "INSERT split into several statements", "fakesnow/cursor.py",
+                          f"on a path decided by {[t for t, _ in p.assumed][-2:]} a single INSERT … VALUES is carried out as `{tagof(v)[:80]}`: "
+                          f"the status row and cursor.rowcount are those of the last part only (and the statement is no longer atomic)")
+    ctx.floor("C04.l explode paths", n, 1)
+
+
 def rule_exists_clause_kept(ctx):
     """C04.k: IF EXISTS / IF NOT EXISTS of the user's DDL reaches the engine: without it the no-op case (dropping what is not
     there, creating what is) raises instead of returning the status message."""
@@ -370,6 +404,7 @@ def rule_executemany_count(ctx):
 
 
 RULES = [
+    ("C04.l", rule_dml_not_split, ("quick", "thorough")),
     ("C04.k", rule_exists_clause_kept, ("quick", "thorough")),
     ("C04.j", rule_executemany, ("quick", "thorough")),
     ("C04.i", rule_reset, ("quick", "thorough")),
